@@ -13,7 +13,7 @@ pub enum Outcome {
 
 pub struct Sink {
     dir: PathBuf,
-    cap: usize,
+    pub cap: usize,
     shard: usize,
     in_shard: usize,
     w: Option<BufWriter<File>>,
